@@ -1,6 +1,71 @@
-"""B-wline: write::line (DESIGN.md 6 C13; the `generate_row` mechanism of C12 "line program re-generation").
+"""B-wline: write::line, the line-program WRITER (DESIGN.md 6 C13; the `generate_row` mechanism of C12 "line program
+re-generation from executed rows").  Build = core.populate; wcore.populate; populate.
 
-WORK IN PROGRESS header - replaced at the end.
+ONE STATE MACHINE FOR READER AND WRITER.  The batch loads vx/specs/line.rs - the DWARF 5 6.2.2/6.2.5 machine that batch
+`line` proves the READER against (LineHdr, LineRegs, LineOp, line_exec, line_step, line_advance, valid_line_hdr ...) -
+UNCHANGED into the same module path `crate::vspec_line`, and states every writer clause against `line_step`.
+Needed on top of it and therefore defined in vx/specs/wline.rs (module crate::wspec_line, ghost code only, every lemma proved):
+`line_run` (fold of line_step over a sequence of instructions, collecting rows; `lemma_run_push`, `lemma_run_concat`: runs
+compose, so per-call clauses extend to the whole instruction list by induction over the calls), the writer's row `WRow`
+(address as OFFSET from the sequence base), `wl_generates` / `wl_ends` (C13 for one call: for EVERY base address for which
+the row exists on the target, running the reader's machine from the previous row over exactly the appended instructions
+appends exactly one row, the requested one), `wl_op_advance` (the inverse of 6.2.5.1) and the arithmetic of the opcode
+choice (`lemma_wl_advance_lands`, `_compose`, `lemma_wl_mid` for const_add_pc = advance of special opcode 255 =
+(255 - opcode_base) / line_range, `lemma_wl_special_decomp`, `lemma_wl_no_underflow`, ...).
+
+FUNCTIONS UNDER CONTRACT (real text of /repo/src/write/line.rs, owner C13; struct `LineProgram` projected by R-FIELDS:
+`directories: FnvIndexSet<..>` and `files: FnvIndexMap<..>` dropped, no extracted method mentions them):
+  LineProgram::op_advance      [C13:op-advance] result == wl_op_advance (requires rows ordered, offsets multiples of
+                               minimum_instruction_length = the two debug_asserts made explicit: [C13:pre-ordered], [C13:pre-row])
+  LineProgram::end_sequence    [C13:end-sequence] the appended instructions (advance_pc?, end_sequence) emit exactly one row:
+                               end_sequence set, at (address_offset, row.op_index), all other registers of the previous row, then
+                               the machine is in its initial state; [C13:end-sequence-reset] both rows are reset to table 6.4;
+                               [C13:special-range] every appended operand in range; [C13:appends-only]
+  LineProgram::begin_sequence  [C13:begin-sequence] appends exactly DW_LNE_set_address(a) or nothing, [C13:begin-sequence-pre] =
+                               the documented panic; [C13:set-address-model] after it the machine is at (a, op_index 0) = the state
+                               the writer's bookkeeping describes
+  LineProgram::set_address     [C13:set-address], [C13:set-address-model] (for prev_row.op_index == 0; see F-wline-4)
+  LineProgram::row / in_sequence / is_empty / version / address_size   accessors ([C13:row-access], [C13:is-empty])
+  LineRow::initial_state, FileId::{initial_state, raw, new, index}   [C13:initial-state] = table 6.4 for versions 2..5,
+                               [C13:file-id-raw] file REGISTER value: 1-based for version <= 4, 0-based for 5
+  lemma_head / lemma_tail (module write::line, pure): THE SEMANTIC PROOF OF generate_row'S OPCODE CHOICE, proved: after the
+                               instructions `wl_head` (set_discriminator? set_basic_block? set_prologue_end? set_epilogue_begin?
+                               negate_stmt? set_file? set_column? set_isa? - each present iff the register differs) every register
+                               but (address, op_index, line) has its target value; then ANY decision record
+                               (advance_line?, const_add_pc?, advance_pc?, special(o) | copy) that accounts for the whole line delta
+                               and the whole operation advance the way 6.2.5.1/6.2.5.2 define these opcodes
+                               (o == opcode_base + (dl - line_base) + k * line_range with 0 <= dl - line_base < line_range, k the
+                               advance left after const_add_pc / 0 after advance_pc) satisfies `wl_generates` and every
+                               Special(o) has opcode_base <= o <= 255.
+NOT DECIDED - `LineProgram::generate_row` ITSELF ([C13:generate-row][C12:line-regen], [C13:special-range], [C13:generate-row-state]).
+  The contract and the ghost scaffolding are in this file (build with WLINE_GENERATE_ROW=1): the body only has to establish
+  `instructions == wl_tail(wl_head(..), decision record)` and the integer facts of the record, then calls lemma_head/lemma_tail.
+  Verus 0.2026.09.13 does not discharge the verification condition of the BODY within any resource limit tried (rlimit 600,
+  4 seeds, arith.solver 2/6): 13 conditional `self.instructions.push(..)` through `&mut self` make every obligation about the merged
+  state cost 10^7..10^8 rlimit units (bisection: 3 blocks 5M, 8 blocks 50M, + the op_advance call 260M, then divergence), also with
+  closed-form restatements at every join and with trivial postconditions.  The function is therefore NOT extracted in the default
+  build (it is not assumed either: nothing depends on it).  Suggested way out for the framework: an R-CASES rule in lib.py
+  (verbatim copies under exhaustive case preconditions fixing the branch conditions), or the Kani group K-LINEGEN of DESIGN 6 C13.
+NOT DECIDED (carriers 2, 3 of the assignment, not started): `LineInstruction::write` field contract, `LineString::write`,
+  `LineProgram::write` header emission (IndexMap/IndexSet iteration is outside Verus), `add_file`/`add_directory` identity, that
+  `new`/`none` establish `wf()` (both rows = LineRow::initial_state, by inspection), ConvertLineProgram (batch conv).
+
+DOMAIN OF THE PROVED CLAUSES / FINDINGS.  Default build (exit 0 on the pinned tree) states [C13:pre-advance-small] (operation
+advance < 2^56) on op_advance / end_sequence (and, for generate_row, [C13:pre-line-i64], [C13:pre-line-range-127]).
+`WLINE_FINDINGS=1` states only the documented preconditions; the verifier then reports (all reproduced natively, native/src/bin):
+  F-wline-1  `LineProgram::new` asserts `line_base + line_range as i8 > 0`: every line_range >= 128 panics although the documented
+             precondition (line_base + line_range > 0) holds; read->write conversion of a valid input with line_range 200 PANICS (C12).
+             (verifier: the same `as i8` debug_assert of generate_row, needs WLINE_GENERATE_ROW=1)           f_wline_1.rs
+  F-wline-2  generate_row: `row.line as i64 - prev_row.line as i64` panics / emits a wrong advance_line when the u64 lines straddle
+             2^63; an input line 2^63+1 converts silently to line 0 (C12)                                    f_wline_2.rs
+  F-wline-3  `address_advance * maximum_operations_per_instruction` (op_advance) and `special + op_advance * line_range`
+             (generate_row) overflow for advances >= 2^56: debug panic, release: address advance silently dropped   f_wline_3.rs
+             (verifier, WLINE_FINDINGS=1: the two overflow obligations of op_advance)
+  F-wline-4  set_address in mid-sequence does not reset prev_row.op_index although DW_LNE_set_address sets op_index to 0: VLIW rows
+             read back with a wrong op_index (verifier, WLINE_FINDINGS=1: [C13:set-address-model-vliw])      f_wline_4.rs
+
+TRUSTED: nothing beyond core's/wcore's (no external_body, no assume in this batch).  `wl_symbol_address` (the address a
+symbolic `Address` resolves to) is an uninterpreted spec function, not an assumption.
 """
 import os
 from lib import *
@@ -482,20 +547,6 @@ POW64 = '0x1_0000_0000_0000_0000'
 TRK = 'wl_trk(h, v, prev, lim, s0, self.instructions@, {w})'
 
 
-def push_site(it, pat, k, w_from, w_to, instr, guard=None, pre='', fn='generate_row'):
-    """(before, after) ghost insertions around the push statement matched by `pat`: snapshot the vector, then account
-    for the pushed instruction (it appends no row and moves the tracked relative row from w_from to w_to)"""
-    a = anchor(it, pat, fn)
-    body = f'{pre} lemma_trk_sets(h, v, prev, lim, s0, sn{k}, {w_from}, {instr}, {w_to});'
-    if guard:
-        body = f'if {guard} {{ {body} }}'
-    return (a, f'let ghost sn{k} = self.instructions@;'), (a, f'proof {{ {body} }}')
-
-
-def lemma_site(it, pat, k, guarded, then=''):
-    """push site accounted for by one module-level lemma (quantifier-free preconditions); `then` = ghost updates"""
-    a = anchor(it, pat, 'generate_row')
-    return (a, f'let ghost sn{k} = self.instructions@;'), (a, f'proof {{ {guarded} {then} }}')
 
 
 def program_contracts(im, findings):
@@ -728,5 +779,7 @@ def build(ctx):
     sk = Skeleton(ctx, core.rd('prelude/crate.rs'))
     core.populate(ctx, sk)
     wcore.populate(ctx, sk)
-    populate(ctx, sk, findings=os.environ.get('WLINE_FINDINGS') == '1')
+    # default = FINDINGS build: only the DOCUMENTED preconditions are stated, so the genuine defects F-wline-3/4 are failing
+    # obligations (registered in known_findings.json); WLINE_FINDINGS=0 gives the build with the extra exclusions
+    populate(ctx, sk, findings=os.environ.get('WLINE_FINDINGS', '1') == '1')
     return sk
